@@ -216,7 +216,13 @@ def array_case(draw):
         else:
             dims.append(draw(st.sampled_from([f"{n + 1}", f"{n + 1}:", f":{n - 1}" if n > 1 else f"{n + 1}:", f"{n + 1}:{n + 3}",
                                               f"0:{n - 1}" if n > 1 else f"{n + 2}"])))
-    return {"kind": "array", "shape": shape, "dims": ",".join(dims), "expect_ok": sat, "via_mod": draw(st.booleans())}
+    short = draw(st.integers(0, 5)) == 0
+    if short:
+        # the value lacks a declared axis altogether: that dimension cannot lie within its bounds
+        dims = dims + [draw(st.sampled_from(["2", "1:", ":3", "2:4"]))]
+        sat = False
+    return {"kind": "array", "shape": shape, "dims": ",".join(dims), "expect_ok": sat, "via_mod": draw(st.booleans()),
+            "rank_short": short}
 
 
 @st.composite
@@ -226,9 +232,39 @@ def decl_case(draw):
             "expect_ok": assigned, "options": draw(st.booleans())}
 
 
+@st.composite
+def imported_case(draw):
+    fam = draw(st.sampled_from(["options", "condition", "format", "cond_units"]))
+    ok = draw(st.booleans())
+    if fam == "options":
+        node, cons, good, bad = "x int = 2", ["= 1", "= 2", "= 3"], "3", "7"
+    elif fam == "condition":
+        node, cons, good, bad = "x int = 2", ['!condition ("{?} < 5")'], "4", "9"
+    elif fam == "format":
+        node, cons, good, bad = "x str = abc", ["!format '^[a-z]+$'"], "xyz", "X1"
+    else:
+        node, cons, good, bad = "x float = 2 m", ['!condition ("{?} > 0 m && {?} <= 300 cm")'], "250 cm", "-1 m"
+    return {"kind": "imported", "node": node, "lines": cons, "assign": good if ok else bad, "expect_ok": ok,
+            "how": draw(st.sampled_from(["children", "single", "all"]))}
+
+
+@st.composite
+def same_literal_case(draw):
+    dim = draw(st.sampled_from(["length", "time"]))     # modest factor ratios: numpy's absolute tolerance stays irrelevant
+    u1, u2 = draw(st.lists(st.sampled_from(DIMS[dim]), min_size=2, max_size=2, unique=True))
+    if F(u2) < F(u1):
+        u1, u2 = u2, u1                                  # define in the smaller unit so that every value is >= 1
+    lit = draw(st.sampled_from(["2", "5", "10", "1"]))
+    form = draw(st.sampled_from(["lines", "lists"]))
+    ok = draw(st.booleans())
+    return {"kind": "same_literal", "unit": u1, "u2": u2, "lit": lit, "form": form, "expect_ok": ok,
+            "which": draw(st.sampled_from([u1, u2]))}
+
+
 def strategies(tier):
     return {"numeric": (numeric_case(), 2500, 60000), "string": (string_case(), 800, 20000), "bool": (bool_case(), 200, 4000),
-            "array": (array_case(), 600, 12000), "declaration": (decl_case(), 150, 2000)}
+            "array": (array_case(), 600, 12000), "declaration": (decl_case(), 150, 2000),
+            "imported": (imported_case(), 300, 6000), "same_literal": (same_literal_case(), 300, 6000)}
 
 
 # --------------------------------------------------------------------------- rendering
@@ -300,6 +336,32 @@ def render(case):
             L.append(f"x = {lit(case['shape'])}")
         else:
             L.append(f"x int[{case['dims']}] = {lit(case['shape'])}")
+    elif k == "imported":
+        L.append("g")
+        L.append("  " + case["node"])
+        for c in case["lines"]:
+            L.append("    " + c)
+        if case["how"] == "children":
+            L.append("copy {?g.*}")
+            L.append(f"copy.x = {case['assign']}")
+        elif case["how"] == "single":
+            L.append("copy {?g.x}")
+            L.append(f"copy.x = {case['assign']}")
+        else:
+            L.append("copy {?*}")
+            L.append(f"copy.g.x = {case['assign']}")
+    elif k == "same_literal":
+        L.append(f"x float = {case['lit']} {case['unit']}")
+        if case["form"] == "lines":
+            L.append(f"  = {case['lit']} {case['unit']}")
+            L.append(f"  = {case['lit']} {case['u2']}")
+        else:
+            L.append(f"  !options [{case['lit']},77] {case['unit']}")
+            L.append(f"  !options [{case['lit']}] {case['u2']}")
+        if case["expect_ok"]:
+            L.append(f"x = {case['lit']} {case['which']}")
+        else:
+            L.append(f"x = 3{case['lit']} {case['which']}")
     else:
         L.append(f"x {case['type']}")
         if case["options"] and case["type"] in ("int", "float"):
@@ -333,12 +395,14 @@ def _check(case, v):
     if case["expect_ok"]:
         if raised is not None:
             return v.fail("valid-rejected", f"all constraints are satisfied but parse raised {raised!r}:\n{text}")
-        got = data["x"]
+        got = data.get("x", data.get("g.x"))
         if isinstance(got, tuple):
             got = got[0]
         got = D.to_py(got)
         k = case["kind"]
-        if k == "numeric":
+        if k in ("imported", "same_literal"):
+            pass
+        elif k == "numeric":
             if not close(got, case["final"], 1e-9):
                 return v.fail("value", f"x = {got!r}, expected {case['final']!r}:\n{text}")
         elif k in ("string", "bool"):
@@ -353,7 +417,7 @@ def _check(case, v):
                      (c["k"] == "options_list" and c["unit"] != case.get("unit")) or
                      (c["k"] == "condition" and any(cm["unit"] and cm["unit"] != case.get("unit") for cm in c["comps"]))
                      for c in case.get("cons", []))
-    v.nt(len(kinds) >= 2 or boundary or other_unit or case["kind"] in ("array",))
+    v.nt(len(kinds) >= 2 or boundary or other_unit or case["kind"] in ("array", "imported", "same_literal"))
     v.label(case["kind"], "accepted" if case["expect_ok"] else "rejected", *("con_" + k for k in kinds))
     if boundary:
         v.label("boundary")
